@@ -362,6 +362,7 @@ func BuildPool(p Pool) *v1.NodePool {
 	np.StatusConditions().SetTrue(v1.ConditionTypeValidationSucceeded)
 	np.StatusConditions().SetTrue(v1.ConditionTypeNodeClassReady)
 	np.StatusConditions().SetTrue(status.ConditionReady)
+	applyPoolExt(np, p)
 	return np
 }
 
